@@ -266,7 +266,11 @@ def gen_malformed(rng, size, layout):
     elif k == 3:
         g.ops += ["alloc %d" % (4 + o), "w 0 %s" % hexb([1, 9]), "push"]    # region smaller than the PDU: assert
     elif k == 4:
-        g.ops += ["alloc %d" % (6 + o), "w 0 %s" % hexb([1, 2, 7, 7, 7]), "push", "push"]   # committed twice
+        n = 6 + o
+        g.ops.append("alloc %d" % n)
+        off = g.sim.alloc(n)
+        if off is not None:
+            g.ops += ["w 0 %s" % hexb([1, 2, 7, 7, 7]), "push", "pushabs %d %d" % (off, n)]   # committed twice
     elif k == 5:
         g.ops += ["wabs %d %s" % (size - 1, hexb([1, 2, 3]))]              # user write beyond the storage
     elif k == 6:
